@@ -2,7 +2,7 @@
 """For each finding listed in KNOWN_FINDINGS.txt for a property, search (with Hypothesis, fixed seeds) for one generated case
 that reproduces it and save it under corpus/<PROP>/known-<n>.json, so that every run replays it and prints its KNOWN-FINDING line.
 
-usage: tools/make_corpus.py <PROP> [max_examples_per_sub]
+usage: tools/make_corpus.py <PROP> [max_examples_per_sub] [sub,sub,...]
 """
 import hashlib
 import importlib
@@ -29,8 +29,9 @@ def main():
     got = {}
     outdir = os.path.join(ROOT, 'corpus', prop)
     os.makedirs(outdir, exist_ok=True)
+    only = sys.argv[3].split(',') if len(sys.argv) > 3 else None
     for sub in mod.SUBS:
-        if not (want - set(got)) or sub.enumerate_cases is not None:
+        if not (want - set(got)) or sub.enumerate_cases is not None or (only and sub.name not in only):
             continue
 
         @seed(20240301)
